@@ -10,9 +10,10 @@ META = {
                           'get_switched_peak_indices', 'get_peak_array_indices (callee)'],
     'stubs': [],
     'bounds': {'quick': 'crossings: n in 1..7, keep_adj_zeros in {F,T}, tol in {0, symbolic in (0,1000]}; switched '
-                        'peaks: n in 2..5, tol in {0, symbolic positive (n<=4)}; every real value in [-1000,1000]',
-               'thorough': 'crossings n<=9; switched peaks n<=7 (tol=0), n<=6 (tol>0)'},
-    'outside': ['NaN/inf inputs', 'floating point beyond the Float64 lemma for crossings (n=2,3)',
+                        'peaks: n in 2..5, tol in {0, symbolic positive (n<=4)}; every real value in [-1000,1000]; '
+                        'Float64 lemmas: crossings n in {2,3}, switched peaks n=2 (every finite double)',
+               'thorough': 'crossings n<=9; switched peaks n<=7 (tol=0), n<=6 (tol>0); Float64 lemma for switched peaks also n=3'},
+    'outside': ['NaN/inf inputs', 'floating point beyond the Float64 lemmas (crossings n=2,3; switched peaks n=2,3 at tol=0)',
                 'series longer than the bound', 'negative tol (raises NotImplemented by design)'],
     'assumptions': [],
 }
@@ -101,7 +102,27 @@ def crossings_fp(ctx, n=3):
     ctx.claim('fp_crossings_exact', S.sym_and(0 in zc, *spec), zc)
 
 
-SCENARIOS = {'crossings': crossings, 'switched': switched, 'crossings_fp': crossings_fp}
+def switched_fp(ctx, n=3):
+    """floating-point lemma: switched peaks on IEEE-754 binary64 values (tol = 0).  The oracle uses comparisons only, so
+    a sign test done through a product that underflows or overflows shows up as a bit-exact counterexample."""
+    pc = ctx.lib.fns.peaks_and_crossings
+    x = ctx.fparr('x', n)
+    sp = [int(i) for i in pc.get_switched_peak_array_indices(x)]
+    ctx.observe('sp', sp)
+    ok = all(b > a for a, b in zip(sp, sp[1:])) and all(0 <= i < n for i in sp)
+    ctx.claim('fp_ascending', ok, sp)
+    if not ok:
+        return
+    cover = []
+    for i in range(n):
+        alts = [S.sym_and(_same_exc(x, i, q), abs(x[q]) >= abs(x[i])) for q in sp]
+        cover.append(S.sym_or(x[i] == 0.0, *alts))
+    ctx.claim('fp_excursion_max_reported', S.sym_and(*cover), sp)
+    ctx.claim('fp_one_per_excursion', S.sym_and(*[S.sym_not(_same_exc(x, a, b))
+                                                 for ai, a in enumerate(sp) for b in sp[ai + 1:]]), sp)
+
+
+SCENARIOS = {'crossings': crossings, 'switched': switched, 'crossings_fp': crossings_fp, 'switched_fp': switched_fp}
 
 
 def obligations(tier, seed):
@@ -137,3 +158,6 @@ def obligations(tier, seed):
     yield Ob('switched', {'n': 4, 'via_object': True})
     yield Ob('crossings_fp', {'n': 2}, query_ms=120000, timeout_s=1500)
     yield Ob('crossings_fp', {'n': 3}, query_ms=120000, timeout_s=1500)
+    yield Ob('switched_fp', {'n': 2}, query_ms=120000, timeout_s=1500)
+    if not q:
+        yield Ob('switched_fp', {'n': 3}, query_ms=240000, timeout_s=2400)
